@@ -451,7 +451,7 @@ func (msc *MinerSmartContract) reduceShardersList(
 	}
 
 	if !hasPrevSharderInList(pmb.MagicBlock, nodes) {
-		var prev = rankedPrevSharders(pmb.MagicBlock, nodes)
+		var prev = rankedPrevSharders(pmb.MagicBlock, tmpMinerNodes)
 		if len(prev) == 0 {
 			panic("must not happen")
 		}
